@@ -23,6 +23,8 @@ use tokio::time::{Duration, Instant};
 
 use crate::dns::dnspkt;
 use crate::dns::parse;
+#[cfg(erbium_verif)]
+use erbium_net::sim::tokio;
 
 /* Our estimate of the best timeout for nameservers.  If we are seeing large amounts of packet
  * loss, then reduce the timeout (to recover as soon as we can), but we can't reduce it below the
